@@ -220,4 +220,19 @@ def InfL.screens (L : InfL) : List Op → List (List Sym × V2)
 /-- `phase_for(λ) = achromatic_screen / λ` -/
 def phaseFor {K} [Div K] (achromatic wavelength : K) : K := achromatic / wavelength
 
+/-- `np.dot` of two vectors -/
+def dot {K} [Add K] [Mul K] [Zero K] : List K → List K → K
+  | a :: as, b :: bs => a * b + dot as bs
+  | _, _ => 0
+
+/-- one element of a new row/column of the infinite layer:
+`A.dot(stencil_data) + B.dot(random_data) * np.sqrt(Cn_squared)`; `amp` stands for `sqrt(Cn²)`
+(`amp ≥ 0`, `amp² = Cn²`), `A`, `B` are rows of the two matrices (built for `Cn² = 1`). -/
+def arSample {K} [Add K] [Mul K] [Zero K] (A st B rnd : List K) (amp : K) : K := dot A st + dot B rnd * amp
+
+/-- a sample of the finite layer's screen: the spectral coefficients are `sqrt(psd)` times unit normals and the
+von-Kármán `psd` is proportional to `r0^(-5/3) = 0.423 k² Cn²`, so the sample is `amp` times the sample of the
+unit-strength screen with the same normals. -/
+def finSample {K} [Mul K] (amp unit : K) : K := amp * unit
+
 end HcipyVerif.Layer
